@@ -1,6 +1,8 @@
 package main
 
 import (
+	"go/token"
+	"go/types"
 	"golang.org/x/tools/go/ssa"
 
 	"verif/internal/pt"
@@ -45,6 +47,7 @@ func rootModel(rl *roles.Roles) *pt.Model {
 	add(rl.WriteDom2, "dom2")
 	add(rl.BatchNeutral, "batchNeutral")
 	add(rl.NewKeyFromSeed, "NewKeyFromSeed")
+	add(rl.BoolToRet, "boolToRet")
 	pure := map[string]bool{}
 	for k, v := range pureFuncs {
 		pure[k] = v
@@ -57,6 +60,57 @@ func rootModel(rl *roles.Roles) *pt.Model {
 		Name: func(f *ssa.Function) string {
 			return names[f]
 		},
+	}
+	// small private predicates over scalars (sameLen(a, b, c int) bool and the like) are interpreted in place with all
+	// their paths, so that a guard moved into such a helper keeps its atoms
+	m.InlineAll = func(f *ssa.Function) bool {
+		if f == nil || names[f] != "" || f.Parent() != nil || f.Signature.Recv() != nil || token.IsExported(f.Name()) || len(f.Blocks) == 0 || len(f.Blocks) > 12 {
+			return false
+		}
+		if rl.VerifyBatch == nil || f.Pkg != rl.VerifyBatch.Pkg {
+			return false
+		}
+		basic := func(t types.Type) bool {
+			_, ok := t.Underlying().(*types.Basic)
+			return ok
+		}
+		ps, rs := f.Signature.Params(), f.Signature.Results()
+		if rs.Len() > 1 || ps.Len() == 0 {
+			return false
+		}
+		allBasic := true
+		for i := 0; i < ps.Len(); i++ {
+			if !basic(ps.At(i).Type()) {
+				allBasic = false
+			}
+		}
+		for i := 0; i < rs.Len(); i++ {
+			if !basic(rs.At(i).Type()) {
+				allBasic = false
+			}
+		}
+		// no loops; scalar predicates call nothing, guard wrappers (no result) call role functions only
+		calls := 0
+		for _, b := range f.Blocks {
+			for _, s := range b.Succs {
+				if s.Index <= b.Index {
+					return false
+				}
+			}
+			for _, in := range b.Instrs {
+				if c, isCall := in.(*ssa.Call); isCall {
+					cal := c.Common().StaticCallee()
+					if cal == nil || names[cal] == "" {
+						return false
+					}
+					calls++
+				}
+			}
+		}
+		if allBasic && calls == 0 {
+			return true
+		}
+		return rs.Len() == 0 && calls == 1 && len(f.Blocks) <= 4
 	}
 	// role functions of the root package are pure with respect to their arguments (engine M checks that)
 	for f := range names {
